@@ -27,6 +27,16 @@ Property oracles (on the implementation only, no model involved):
       instants after the command, as in the solo run (nobody is delayed or blocked by a peer that stops reading its
       control channel, by a session connecting, or - with per-connection speed limits - by another session's transfer).
 
+  O7  (mechanism, reported as a broken obligation) aliasing: no mutable object reachable from one session's Connection
+      (through containers, namedtuples, aioftp objects, results of completed futures: throttles under every key, backend
+      instance, futures, streams, worker set) is reachable from another's, except the declared shared ones (server, server-wide
+      throttle, user manager / user objects / counters, port pool, backend nursery and its state, the per-user throttle
+      of the SAME user); no connection of a vanished peer stays in the server's table at quiescence.
+  Two families make the consequences behavioural: an operator assigns `throttle.limit` on ONE session's per-connection
+  throttle at run time (the others keep their solo timing), and a session dies uncleanly at every point (control connection
+  reset / closed, data peer stalled with unsent data queued: a lingering close; Server.wait_closed() with its CPython >= 3.12.1
+  meaning) before another one connects / logs in under a connection limit of 1.
+
 Correspondence with the extracted model (coq/Model/Multi.v):
   M0  the hypotheses of C17_isolation hold for the schedule (fn 1: solo footprints inside dirs[i], dirs
       pairwise incomparable and existing) — non-vacuity, evaluated by the model on every schedule;
@@ -37,10 +47,13 @@ Correspondence with the extracted model (coq/Model/Multi.v):
       are excluded from M2: the model has no partial transfers).
 """
 import asyncio
+import collections
+import errno
 import itertools
 import json
 import mmap
 import os
+import pathlib
 import pickle
 import re
 import select
@@ -50,6 +63,7 @@ import struct
 import tempfile
 import threading
 import time
+import types
 
 import aioftp
 
@@ -65,7 +79,8 @@ TECHNIQUE = (
     "inventory regenerated from server.py (every session function writes connection.<attr> or a declared shared structure only, no "
     "class-level mutable, Connection/queue/backend built once per accepted socket, PASV/EPSV accept handler closes over its own "
     "connection); solo-vs-interleaved oracle and model correspondence on the real server on an in-memory network with held links, "
-    "split uploads and a gated spying backend"
+    "split uploads and a gated spying backend; an aliasing oracle over everything reachable from two Connections; closed obligation "
+    "over common.py: every factory whose result is stored under a stream's `throttles` returns a newly constructed object on every path"
 )
 LEVEL_TEXT = (
     "Proved about the model for every dispatch table, user table, tree, number of sessions and interleaving (commands, data-channel "
@@ -90,7 +105,8 @@ TRUSTED = [
 ASSUMPTIONS = [
     "each session sends one command at a time (ABOR excepted); different sessions are fully concurrent",
     "sessions work on disjoint pre-existing directories (the property's hypothesis, checked on every schedule by the model's run_in)",
-    "no connection limits, port pool large enough, no server-wide / per-user speed limits (shared by design: C10, C11, C15); per-connection limits are configured in one family",
+    "no connection limits among LIVE sessions (one family configures a limit of 1 that only a dead session could exhaust), port pool large enough, no server-wide / per-user speed limits (shared by design: C10, C11, C15); per-connection limits are configured in one family and assigned at run time on one session's own throttle in another",
+    "lingering close: a transport closed with unsent data queued gets connection_lost only when the peer has taken the data or reset (asyncio selector transports with kernel buffers of size 0); asyncio.Server.wait_closed() waits for the accepted connections (CPython >= 3.12.1) - both modelled in the harness for the family after-unclean-death only",
 ]
 
 CRLF = b"\r\n"
@@ -312,6 +328,7 @@ class MSession(ftpsim.Session):
         self.rx_off = 0
         self.limits = False  # speed limits configured: transfers take virtual time
         self.wedged = None
+        self.zombies = []  # data sockets of a vanished peer: neither read nor closed
 
     async def start(self):
         """connect the control channel; every chunk of reply bytes is time-stamped (virtual clock) on arrival"""
@@ -444,8 +461,24 @@ class MSession(ftpsim.Session):
             await self.connect_data()
         elif k == "drop":
             await self.drop(atom.get("how", "abort"))
+        elif k == "tune":
+            await self.tune(atom)
         else:
             raise ValueError(k)
+
+    async def tune(self, atom):
+        """an OPERATOR action on this session's own per-connection objects at run time (public API: `Throttle.limit` has a
+        setter): the limit of the session's `server_per_connection` / `user_per_connection` throttle is assigned.  No record
+        (nothing is sent on the wire); in the solo run of this session the same assignment happens at the same point"""
+        c = None if self.gone() else self.conn()
+        if c is None:
+            return
+        thr = getattr(c.command_connection, "throttles", {}).get(atom["key"])
+        if thr is None:
+            return
+        for side in atom.get("sides", ("read", "write")):
+            getattr(thr, side).limit = atom["limit"]
+        await self.net.settle()
 
     def new_record(self, verb, arg):
         rec = {"verb": verb, "arg": arg, "codes": [], "lines": [], "bytes": None, "listing": None, "ended": False,
@@ -629,6 +662,20 @@ class MSession(ftpsim.Session):
             return
         self.take(self.inflight[0] if self.inflight else None)
         self.dropped = True
+        if how in ("vanish", "vanish-eof"):
+            # the client HOST vanishes (a laptop that left the Wi-Fi): the control connection dies (RST seen by the server, or
+            # a last FIN), the data sockets just stop being read - no FIN / RST ever arrives for them
+            for _, w in self.data:
+                w.transport.peer.out.hold = True  # server -> client direction: nothing is delivered any more
+                self.zombies.append(w)
+            if how == "vanish":
+                self.raw.writer.transport.abort()
+            else:
+                self.raw.writer.close()
+            self.data = []
+            await self.net.settle()
+            rec["ended"] = True
+            return
         socks = [self.raw.writer] + [w for _, w in self.data]
         for w in socks:
             if how == "abort":
@@ -648,6 +695,187 @@ class lowered_watermark:
 
     def __exit__(self, *a):
         simnet.HIGH_WATER, simnet.LOW_WATER = self.old
+
+
+# ---------------------------------------------------------------- what close() / wait_closed() mean on a real OS
+class closing_semantics:
+    """For the duration of one run (like lowered_watermark; simnet itself is not edited):
+      * transport.close() with UNSENT data queued is a lingering close, as in asyncio's selector transports: the transport
+        is closing, connection_lost comes only when the write buffer has been flushed to the peer (never, if the peer
+        neither reads nor resets); a reset / a full close of the peer ends it;
+      * Server.wait_closed() has the CPython >= 3.12.1 meaning: it returns when the listener is closed AND every connection
+        it accepted has had its connection_lost (3.11: returned at once)."""
+
+    def __init__(self, on):
+        self.on = on
+
+    def __enter__(self):
+        if not self.on:
+            return
+        T, L, N, K = simnet.MemTransport, simnet.Listener, simnet.Network, simnet.Link
+        self.old = (T.close, T._maybe_resume_writing, L.close, L.wait_closed, N.open_connection, N._transport_closed, K.pump)
+        o_close, o_resume, o_lclose, _, o_open, o_tclosed, o_pump = self.old
+
+        def wake(lst):
+            if lst.closed and not getattr(lst, "_active", None):
+                for w in getattr(lst, "_waiters", []):
+                    if not w.done():
+                        w.set_result(None)
+                lst._waiters = []
+
+        def t_close(t):
+            if t.closing:
+                return
+            if t.out is not None and t.out.bytes_queued > 0 and not t.peer_gone and not t.out.dropped:
+                t.closing = True
+                t._lingering = True
+                t.out.push("eof")
+                t.out.push("gone")
+                return
+            o_close(t)
+
+        def t_resume(t):
+            o_resume(t)
+            if getattr(t, "_lingering", False) and not t.closed and t.out.bytes_queued == 0:
+                t._lingering = False
+                t.net.loop.call_soon(t._connection_lost, None)
+
+        def k_pump(link):
+            o_pump(link)
+            d = link.dst
+            if d.peer_gone and getattr(d, "_lingering", False) and not d.closed:
+                d._lingering = False
+                d._fatal(ConnectionResetError(errno.ECONNRESET, "Connection reset by peer"))
+
+        def l_close(lst):
+            o_lclose(lst)
+            wake(lst)
+
+        async def l_wait_closed(lst):
+            if lst.closed and not getattr(lst, "_active", None):
+                await asyncio.sleep(0)
+                return
+            w = lst.net.loop.create_future()
+            lst.__dict__.setdefault("_waiters", []).append(w)
+            await w
+
+        async def n_open(net, host=None, port=None, **kw):
+            lst = net.listeners.get(port)
+            r, w = await o_open(net, host, port, **kw)
+            st = w.transport.peer
+            if lst is not None:
+                lst.__dict__.setdefault("_active", set()).add(st)
+                st._listener = lst
+            return r, w
+
+        def n_tclosed(net, t):
+            o_tclosed(net, t)
+            lst = getattr(t, "_listener", None)
+            if lst is not None:
+                lst._active.discard(t)
+                wake(lst)
+
+        T.close, T._maybe_resume_writing, L.close, L.wait_closed, N.open_connection, N._transport_closed, K.pump = (
+            t_close, t_resume, l_close, l_wait_closed, n_open, n_tclosed, k_pump)
+
+    def __exit__(self, *a):
+        if self.on:
+            T, L, N, K = simnet.MemTransport, simnet.Listener, simnet.Network, simnet.Link
+            T.close, T._maybe_resume_writing, L.close, L.wait_closed, N.open_connection, N._transport_closed, K.pump = self.old
+
+
+# ---------------------------------------------------------------- aliasing: what two sessions can both reach
+IMMUTABLE = (int, float, str, bytes, bool, type(None), pathlib.PurePath, type, types.FunctionType, types.MethodType,
+             types.BuiltinFunctionType, types.ModuleType, range)
+
+
+def _from_aioftp(o):
+    return any((c.__module__ or "").startswith("aioftp") for c in type(o).__mro__)
+
+
+def reach(roots, stop, depth=7):
+    """{id: access path} of every MUTABLE object reachable from the roots through containers, namedtuples, instances of
+    aioftp classes (their __dict__ / __slots__) and the results of completed futures.  Foreign objects (streams, queues,
+    tasks, transports) are recorded and not entered; the ids in `stop` (the server, the loop) are not entered at all"""
+    seen = {}
+    keep = []  # keeps temporaries alive so that ids stay unique while we work
+    stack = [(o, name, 0) for name, o in roots]
+    while stack:
+        o, path, d = stack.pop()
+        if isinstance(o, IMMUTABLE) or id(o) in stop:
+            continue
+        plain_tuple = isinstance(o, (tuple, frozenset))
+        if not plain_tuple:
+            if id(o) in seen:
+                continue
+            seen[id(o)] = path
+        keep.append(o)
+        if d >= depth:
+            continue
+        kids = []
+        if isinstance(o, dict):
+            kids += [(v, f"{path}[{k!r}]" if isinstance(k, (str, int)) else f"{path}[<{type(k).__name__}>]") for k, v in list(o.items())]
+            kids += [(k, f"{path}.key") for k in list(o) if not isinstance(k, IMMUTABLE) and _from_aioftp(k)]
+        elif isinstance(o, tuple) and hasattr(o, "_fields"):
+            kids += [(getattr(o, f), f"{path}.{f}") for f in o._fields]
+        elif isinstance(o, (list, tuple, set, frozenset, collections.deque)):
+            kids += [(v, f"{path}[{n}]") for n, v in enumerate(list(o))]
+        if isinstance(o, asyncio.Task):
+            pass
+        elif isinstance(o, asyncio.Future):
+            if o.done() and not o.cancelled() and getattr(o, "_exception", None) is None:
+                kids.append((o.result(), path + "()"))
+        elif _from_aioftp(o):
+            if hasattr(o, "__dict__"):
+                kids += [(v, f"{path}.{k}") for k, v in list(vars(o).items())]
+            for cls in type(o).__mro__:
+                for sl in getattr(cls, "__slots__", ()) or ():
+                    if isinstance(sl, str) and sl not in ("__dict__", "__weakref__"):
+                        try:
+                            kids.append((getattr(o, sl), f"{path}.{sl}"))
+                        except AttributeError:
+                            pass
+        stack += [(v, p, d + 1) for v, p in kids]
+    return seen, keep
+
+
+def aliasing(server, conns, cache=None):
+    """The aliasing oracle: no mutable object reachable from one session's Connection is reachable from another's, except
+    the DECLARED shared ones - the server, its server-wide throttle, the user manager with the user objects and their
+    counters, the port pool, the backend nursery with its shared state, and the per-user throttle for sessions of the SAME
+    user.  conns = [Connection | None].  Returns None or (i, j, path in i, path in j)"""
+    stop = {id(server), id(asyncio.get_event_loop())}
+    state = getattr(server.path_io_factory, "state", None)
+    if state is not None and not isinstance(state, IMMUTABLE):
+        stop.add(id(state))  # the ONE backend state per server (declared shared; for MemoryPathIO the whole tree): not entered
+    cache = {} if cache is None else cache
+    sig = (id(server), len(server.throttle_per_user), id(state))
+    if cache.get("sig") != sig:
+        # the declared shared structures: walked once per run and again whenever a per-user throttle is added (the walked objects
+        # are kept alive in the cache so that their ids stay theirs)
+        decl, k0 = reach([("server.throttle", server.throttle), ("server.user_manager", server.user_manager), ("server.path_io_factory", server.path_io_factory),
+                          ("server.available_connections", server.available_connections), ("server.available_data_ports", server.available_data_ports)], stop)
+        per_user, keep = {}, [k0]
+        for u, t in list(server.throttle_per_user.items()):
+            r, k1 = reach([("server.throttle_per_user[u]", t)], stop)
+            per_user[id(u)] = r
+            keep.append(k1)
+        cache.update(sig=sig, decl=decl, per_user=per_user, keep=keep)
+    decl, per_user = cache["decl"], cache["per_user"]
+    rs = []
+    for c in conns:
+        rs.append(None if c is None else reach([("connection", c)], stop))
+    for j in range(len(conns)):
+        for i in range(j):
+            if rs[i] is None or rs[j] is None:
+                continue
+            ui = conns[i].user if conns[i].future.user.done() else None
+            uj = conns[j].user if conns[j].future.user.done() else None
+            same = per_user.get(id(ui), {}) if (ui is not None and ui is uj) else {}
+            for oid, path in rs[i][0].items():
+                if oid in rs[j][0] and oid not in decl and oid not in same:
+                    return (i, j, path, rs[j][0][oid])
+    return None
 
 
 # ---------------------------------------------------------------- dynamic write inventory
@@ -732,7 +960,17 @@ PROBE_KEYS = ("user", "has_user", "logged", "cwd", "rnfr", "rest", "passive", "d
 
 
 def run_impl(n, schedule, cfg, align=None):
-    """n sessions, schedule = [(i, atom)].  Returns dict(sessions=[...], tree, steps=[probes of all sessions after each step], log)"""
+    """n sessions, schedule = [(i, atom)].  Returns dict(sessions=[...], tree, steps=[probes of all sessions after each step], log).
+    A run that exceeds its wall budget is repeated ONCE with twice the budget before it counts as frozen: a blocked event loop
+    is deterministic and freezes again, a machine that was busy for a few seconds is not an observation about aioftp
+    (not while shrinking, where the budget is lowered on purpose)"""
+    r = _run_impl(n, schedule, cfg, align, LOOP_BUDGET)
+    if "frozen" in r and 4 <= LOOP_BUDGET < 100:
+        r = _run_impl(n, schedule, cfg, align, 2 * LOOP_BUDGET)
+    return r
+
+
+def _run_impl(n, schedule, cfg, align, budget):
     backend = cfg.get("backend", "memory")
     tmp = None
     if backend != "memory":
@@ -751,7 +989,10 @@ def run_impl(n, schedule, cfg, align=None):
             lim = cfg.get("limits") or {}
             if lim.get("server_pc"):
                 kw["read_speed_limit_per_connection"] = kw["write_speed_limit_per_connection"] = lim["server_pc"]
-            server = ftpsim.make_server(USERS, TREE, backend, tmp, **kw)
+            mc = cfg.get("maxconn") or {}
+            if mc.get("server"):
+                kw["maximum_connections"] = mc["server"]
+            server = ftpsim.make_server([dict(u, maxconn=mc.get("user")) for u in USERS], TREE, backend, tmp, **kw)
             if lim.get("user_pc"):
                 for u in server.user_manager.users:
                     u.read_speed_limit_per_connection = u.write_speed_limit_per_connection = lim["user_pc"]
@@ -766,13 +1007,14 @@ def run_impl(n, schedule, cfg, align=None):
             late = {i for i in range(n) if next((a["k"] for j, a in schedule if j == i), None) == "connect"}
             for i in range(n):
                 s = MSession(net, server, i, gate)
-                s.limits = bool(lim)
+                s.limits = timed(cfg)
                 if i not in late:
                     g = await s.start()
                     assert g == ["220"], g
                 ss.append(s)
             steps = []
             writes = []
+            alias, alias_cache = None, {}
             fp = server_fingerprint(server)
             starts = [[] for _ in range(n)]
             for i, atom in schedule:
@@ -788,6 +1030,10 @@ def run_impl(n, schedule, cfg, align=None):
                 before = [s.xprobe() for s in ss]
                 await ss[i].do(atom)
                 steps.append((before, [s.xprobe() for s in ss]))
+                if alias is None:
+                    hit = aliasing(server, [(s.conn() if s.started and not s.dropped else None) for s in ss], alias_cache)
+                    if hit is not None:
+                        alias = (len(steps) - 1, i, atom.get("verb", atom["k"])) + hit
                 fp2 = server_fingerprint(server)
                 if fp2 != fp:
                     for k in sorted(set(fp) | set(fp2)):
@@ -806,6 +1052,11 @@ def run_impl(n, schedule, cfg, align=None):
                     s.take(None)  # replies that came after the session's last step still belong to its transcript
             tree = ftpsim.final_tree(server, backend, tmp)
             own = [{"announced": sorted(s.announced), "ports": sorted(s.my_ports)} for s in ss]
+            ghosts = len(server.connections) - sum(1 for s in ss if s.started and not s.gone())
+            for s in ss:
+                for w in s.zombies:
+                    w.transport.abort()  # the stalled sockets of a vanished peer: end them so that the server can shut down
+            await net.settle()
             await server.close()
             out.update(
                 sessions=[{"lines": s.lines, "xfers": s.xfers, "records": s.records, "ended": (s.gone() if s.started else False)} for s in ss],
@@ -815,16 +1066,18 @@ def run_impl(n, schedule, cfg, align=None):
                 log=list(gate.log),
                 writes=writes,
                 starts=starts,
+                alias=alias,
+                ghosts=ghosts,
             )
 
         try:
-            with lowered_watermark(), Watchdog(LOOP_BUDGET) as dog:
+            with lowered_watermark(), closing_semantics(bool(cfg.get("os312"))), Watchdog(budget) as dog:
                 simnet.run(main)
         except (LoopBlocked, TimeoutError):
             # the event-loop thread did not come back within the wall budget: nothing any session does can be answered
-            return {"frozen": progress["step"] or ("start", None, "", ""), "budget": LOOP_BUDGET}
+            return {"frozen": progress["step"] or ("start", None, "", ""), "budget": budget}
         if not out:
-            return {"frozen": progress["step"] or ("start", None, "", ""), "budget": LOOP_BUDGET}
+            return {"frozen": progress["step"] or ("start", None, "", ""), "budget": budget}
         return out
     finally:
         if tmp:
@@ -890,6 +1143,11 @@ def under(path, d):
 _solo_cache = {}
 
 
+def timed(cfg):
+    """transfers / replies may take VIRTUAL time in this configuration (speed limits configured, or assigned at run time)"""
+    return bool(cfg.get("limits") or cfg.get("timed"))
+
+
 def solo(script, d, cfg):
     key = (json.dumps(script, sort_keys=True), d, json.dumps(cfg, sort_keys=True))
     if key not in _solo_cache:
@@ -902,13 +1160,41 @@ def solo(script, d, cfg):
 def solos_for(n, dirs, schedule, cfg, res):
     """the solo runs to compare with: cached per script - or, with speed limits, re-run with every step of the session
     starting at the same virtual instant as in the interleaved run"""
-    if cfg.get("limits") and "frozen" not in res:
+    if timed(cfg) and "frozen" not in res:
         return [run_impl(1, [(0, a) for a in project_atoms(schedule, i)], cfg, align=res["starts"][i]) for i in range(n)]
     return [solo(project_atoms(schedule, i), dirs[i], cfg) for i in range(n)]
 
 
 def verbs_of(script):
     return [a.get("verb", a["k"]) for a in script]
+
+
+def limit_exceeded(n, schedule, cfg):
+    """connection limits are shared BY DESIGN among live sessions (C10): a schedule is inside this property's hypothesis only
+    if the configured limit is never needed by two LIVE sessions at once (then only a dead session could exhaust it)"""
+    mc = cfg.get("maxconn") or {}
+    if not mc:
+        return None
+    late = {i for i in range(n) if next((a["k"] for j, a in schedule if j == i), None) == "connect"}
+    alive = {i: None for i in range(n) if i not in late}  # session -> login it holds a per-user slot for
+    if mc.get("server") and len(alive) > mc["server"]:
+        return "more live connections than the server-wide limit"
+    for i, a in schedule:
+        if a["k"] == "drop" or (a["k"] in ("cmd", "send") and a["verb"].upper() == "QUIT") or (a["k"] in ("cmd", "send") and a.get("raw")):
+            alive.pop(i, None)
+            continue
+        if i not in alive:
+            if i in late and a["k"] == "connect":
+                alive[i] = None
+                if mc.get("server") and len(alive) > mc["server"]:
+                    return f"session {i} connects while {len(alive) - 1} other(s) live: server-wide limit {mc['server']}"
+            continue
+        if a["k"] in ("cmd", "send") and a["verb"].upper() == "USER":
+            login = a.get("arg", "")
+            if mc.get("user") and sum(1 for j, l in alive.items() if j != i and l == login) >= mc["user"]:
+                return f"session {i} logs in as {login!r} while another live session holds that user's only slot"
+            alive[i] = login
+    return None
 
 
 def oracle(n, dirs, schedule, cfg, res, solos):
@@ -920,6 +1206,9 @@ def oracle(n, dirs, schedule, cfg, res, solos):
             return [("c17-event-loop-blocked" + ("" if who == "interleaved" else "-solo"),
                      f"{who}: the server's event-loop thread did not return within {r['budget']} s of wall time during step #{k} "
                      f"({verb} {arg} of session {i}): every session is frozen (a blocking call / a thread lock held across an await)", {"actor": i, "at": k})]
+    why = limit_exceeded(n, schedule, cfg)
+    if why:
+        return [("outside-hypothesis", why, {})]
     canon_initial = ftpsim.canon_tree(TREE)
     # O6 every command sent and completed in one step: the same replies at the same VIRTUAL instants (relative to the
     # instant the command was sent) as in the solo run - nobody is delayed, let alone blocked, by what others do
@@ -985,6 +1274,13 @@ def oracle(n, dirs, schedule, cfg, res, solos):
         want[dirs[i]] = st[dirs[i]]
     if not cfg.get("merge") and res["tree"] != ftpsim.canon_tree(want):
         bad.append(("c17-tree-not-union-of-solo-effects", f"(interleaved vs union of solo effects) {tree_diff(res['tree'], ftpsim.canon_tree(want))[:6]}", {}))
+    # aliasing oracle (mechanism): objects reachable from two Connections; a dead session still in the server's table
+    if res.get("alias"):
+        k, i, verb, a, b, pa, pb = res["alias"]
+        bad.append(("c17-mech-aliasing", f"after step #{k} ({verb} of session {i}): sessions {a} and {b} reach the SAME mutable object, as {pa} and as {pb}; "
+                    "it is not one of the declared shared structures", {"actor": i, "session": b}))
+    if res.get("ghosts"):
+        bad.append(("c17-mech-ghost-connection", f"at the end of the schedule (quiescent) the server still tracks {res['ghosts']} connection(s) whose peer is gone", {}))
     # O3 locality, O4 ownership
     unsettled = [False] * n  # a command line is on the wire and its session has not collected the outcome yet
     for (i, atom), (before, after) in zip(schedule, res["steps"]):
@@ -1456,6 +1752,74 @@ def gen_jobs(rng, thorough, budget=None):
             if nn == 3:
                 s += [(2, a) for a in scripts[2]]
         jobs.append(("shared-missing-ancestor", nn, ds, [project_atoms(s, i) for i in range(nn)], s, cfg))
+    # (9) an OPERATOR changes one session's own per-connection object at run time (`throttle.limit = n` on the session's
+    # server_per_connection / user_per_connection throttle: public setter): every other session keeps its solo timing.  No limit
+    # is configured at start (the default), so everything a session owns was built by the clone / from_limits factories of common.py
+    for w in range(160 if thorough else (40 if budget else 24)):
+        nn = 3 if rng.random() < 0.25 else 2
+        ds = rng.sample(DIRS, nn)
+        la = rng.choice(["u", "v", "n", "anon"])
+        ls = [la] * nn if rng.random() < 0.6 else [rng.choice(["u", "v", "n"]) for _ in range(nn)]
+        bs = [rng.choice(["store", "rest2", "append", "type", "rest"]) for _ in range(nn)]
+        scripts = [script(l, b, d) for l, b, d in zip(ls, bs, ds)]
+        t = rng.randrange(nn)
+        tune = {"k": "tune", "key": ("server_per_connection", "user_per_connection")[w % 2], "limit": rng.choice([200, 400, 1000])}
+        if rng.random() < 0.3:
+            tune["sides"] = [rng.choice(["read", "write"])]
+        pos = rng.choice([0, len(LOGIN[ls[t]]), len(LOGIN[ls[t]]) + 1, rng.randrange(len(scripts[t]) + 1)]) if tune["key"] != "user_per_connection" else \
+            rng.choice([len(LOGIN[ls[t]]), len(LOGIN[ls[t]]) + 1, rng.randrange(len(LOGIN[ls[t]]), len(scripts[t]) + 1)])
+        head = [(t, a) for a in scripts[t][:pos]] + [(t, tune)]
+        rest_scripts = [sc[pos:] if i == t else sc for i, sc in enumerate(scripts)]
+        if rng.random() < 0.5:
+            # the others are connected and logged in before the assignment
+            pre = [[(i, a) for a in sc[:len(LOGIN[ls[i]])]] if i != t else [] for i, sc in enumerate(scripts)]
+            rest_scripts = [sc if i == t else sc[len(LOGIN[ls[i]]):] for i, sc in enumerate(rest_scripts)]
+            head = [x for pr in pre for x in pr] + head
+        r = rng.random()
+        tail = merge_alternate(rest_scripts) if r < 0.4 else merge_random(rng, rest_scripts)
+        s = head + (burstify(tail) if rng.random() < 0.5 else tail)
+        jobs.append(("runtime-limit-on-one-session-" + ("same-user" if len(set(ls)) == 1 else "other-users"), nn, ds, [project_atoms(s, i) for i in range(nn)], s, {"backend": "memory", "timed": True}))
+    # (10) what a session observes AFTER another one died uncleanly: A is cut at point p (idle, listener open, data connection idle,
+    # mid-RETR/LIST/MLSD with unsent data queued, mid-upload, inside a backend call) - its control connection is reset / closed /
+    # the whole client host vanishes (data peer neither reads nor closes: a lingering close that never completes) - then B connects
+    # or logs in and works.  A connection limit (per user = 1 with the same user, or server-wide = 1) is configured and never
+    # exceeded by LIVE sessions, so B's solo run is what it must see.  close() / wait_closed() have their real (>= 3.12.1) meaning
+    cuts = []
+    for ba in TRANSFER_BODIES:
+        sa = script("u", ba, "a")
+        for e, atom in enumerate(sa):
+            if atom["k"] == "cmd" and atom["verb"].lower() in XFER:
+                cuts += [(ba, e, mode) for mode in modes_for(atom) if mode[0] in ("hold", "split")]
+    rng.shuffle(cuts)
+    extra_cuts = 400 if thorough else (50 if budget else 26)
+    plan = [(c, "vanish" if k % 3 else "vanish-eof") for k, c in enumerate(cuts if (thorough or budget) else cuts[:22])]
+    for _ in range(extra_cuts):
+        ba = rng.choice(bodies)
+        plan.append(((ba, None, None), rng.choice(["vanish", "vanish", "vanish-eof", "abort", "close"])))
+    for k, ((ba, e, mode), how) in enumerate(plan):
+        da, db = rng.sample(DIRS, 2)
+        la = rng.choice(["u", "v", "n"])
+        by_user = k % 3 != 2
+        lb = la if by_user else rng.choice(["u", "v", "n", "anon"])
+        sa = script(la, ba, da)
+        sb = script(lb, rng.choice(["nav", "store", "type", "rename", "append"]), db)
+        if e is None:
+            e = rng.randrange(0, len(sa) + 1)
+            ms = modes_for(sa[e]) if e < len(sa) else []
+            mode = rng.choice(ms) if ms and rng.random() < 0.7 else None
+        else:
+            e += len(sa) - len(script("u", ba, "a"))  # same body, another login prefix
+        pre = [(0, a) for a in sa[:e]]
+        if mode is not None:
+            pre.append((0, dict(sa[e], k="send", mode=mode[0], marg=mode[1])))
+        late = (not by_user) or rng.random() < 0.6
+        if late:
+            s = pre + [(0, {"k": "drop", "how": how})] + [(1, {"k": "connect"})] + [(1, b) for b in sb]
+        else:
+            # B is connected (not logged in) while A lives; it logs in after A's death
+            s = pre + [(0, {"k": "drop", "how": how})] + [(1, b) for b in sb]
+        cfg = {"backend": "memory", "os312": True, "maxconn": {"user": 1} if by_user else {"server": 1}}
+        jobs.append(("after-unclean-death-" + how, 2, [da, db], [project_atoms(s, 0), project_atoms(s, 1)], s, cfg))
     # the victim itself is torn down half-way (its partial effects stay its own)
     for _ in range(300 if thorough else 24):
         ba, la, e, mode = rng.choice(wins)
@@ -1778,7 +2142,13 @@ def correspondence(ctx, budget=None):
         "of a schedule is under a wall-clock watchdog, the whole stream in a supervised child process: a frozen event loop is reported as "
         "a violation with the schedule; (7) disjoint leaves under a common ancestor that does not exist yet (MKD of 2-3 missing levels by "
         "each session, every backend call of the MKD gated, both sessions suspended at once): outside the theorem's hypothesis, oracle = "
-        "replies as solo and final tree = merge of the solo trees. Non-trivial = distinct (schedule, configuration)."
+        "replies as solo and final tree = merge of the solo trees; (8) an operator assigns the limit of ONE session's server_per_connection / "
+        "user_per_connection throttle at run time (no limit configured at start) before / while 2-3 sessions of the same / other users transfer: "
+        "reply instants of everybody vs time-aligned solo runs; (9) session A cut at every point (idle, listener open, idle data connection, "
+        "mid-RETR/LIST/MLSD with unsent data queued, mid-upload) by reset / close / a vanished client host (control connection dies, data peer "
+        "neither reads nor closes), then B connects or logs in under a per-user or server-wide connection limit of 1, with lingering close and "
+        "3.12 wait_closed semantics. After every step of every schedule the aliasing oracle walks what is reachable from each Connection. "
+        "Non-trivial = distinct (schedule, configuration)."
     )
     jobs = gen_jobs(rng, thorough, budget)
     ctx.extra.setdefault("dynamic_writes", {})
